@@ -7,6 +7,52 @@ byte helpers).  Also run by the driver on the implementation's bytes.  Core Lean
 -/
 import RtcModel.Stun
 
+namespace RtcModel.Stun
+open RtcModel.C16Bytes
+
+/-! ### attribute values as the RFCs prescribe them (specification side; literal IANA numbers) -/
+
+/-- one attribute on the wire (RFC 5389 §15): 16-bit type, 16-bit length of the value (before padding),
+value, padding to a multiple of 4 -/
+def tlv (t : Nat) (v : Bytes) : Bytes := be16 t ++ be16 v.length ++ v ++ zeros (pad4 v.length)
+
+/-- RFC 5389 §15.2 XOR-MAPPED-ADDRESS (also XOR-PEER-ADDRESS / XOR-RELAYED-ADDRESS, RFC 5766 §14.3/§14.5):
+reserved byte, family (0x01 IPv4 / 0x02 IPv6), X-Port = port ⊕ (magic cookie >> 16), X-Address = address ⊕
+(magic cookie ‖ transaction id) — ONE xor of the whole address with the concatenation. -/
+def xorValue (a : Addr) (tx : Bytes) : Bytes :=
+  match a with
+  | .v4 ip port => [0, 0x01] ++ be16 (port ^^^ 0x2112) ++ xorBytes ip ([0x21, 0x12, 0xA4, 0x42] ++ tx)
+  | .v6 ip port => [0, 0x02] ++ be16 (port ^^^ 0x2112) ++ xorBytes ip ([0x21, 0x12, 0xA4, 0x42] ++ tx)
+
+/-- IANA STUN attribute registry -/
+def attrType : Attr → Nat
+  | .username _ => 0x0006            -- RFC 5389 §15.3
+  | .realm _ => 0x0014               -- RFC 5389 §15.7
+  | .nonce _ => 0x0015               -- RFC 5389 §15.8
+  | .software _ => 0x8022            -- RFC 5389 §15.10
+  | .requestedTransport _ => 0x0019  -- RFC 5766 §14.7
+  | .lifetime _ => 0x000D            -- RFC 5766 §14.2
+  | .priority _ => 0x0024            -- RFC 8445 §16.1
+  | .iceControlling _ => 0x802A      -- RFC 8445 §16.1
+  | .iceControlled _ => 0x8029       -- RFC 8445 §16.1
+  | .useCandidate => 0x0025          -- RFC 8445 §16.1
+  | .xorPeer _ => 0x0012             -- RFC 5766 §14.3
+  | .xorMapped _ => 0x0020           -- RFC 5389 §15.2
+  | .channelNumber _ => 0x000C       -- RFC 5766 §14.1
+  | .data _ => 0x0013                -- RFC 5766 §14.4
+
+/-- the value bytes of each attribute -/
+def attrValue (tx : Bytes) : Attr → Bytes
+  | .username v | .realm v | .nonce v | .software v | .data v => v   -- the bytes themselves
+  | .requestedTransport v => [UInt8.ofNat v, 0, 0, 0]                 -- protocol number + 3 RFFU bytes (RFC 5766 §14.7)
+  | .lifetime v | .priority v => be32 v                                -- 32-bit unsigned, network order
+  | .iceControlling v | .iceControlled v => be64 v                     -- 64-bit tie-breaker (RFC 8445 §7.1.3)
+  | .useCandidate => []                                                -- flag, no content
+  | .xorPeer a | .xorMapped a => xorValue a tx
+  | .channelNumber v => be16 v ++ [0, 0]                               -- 16-bit number + 2 RFFU bytes (RFC 5766 §14.1)
+
+end RtcModel.Stun
+
 namespace RtcModel.StunRfc
 open RtcModel.Stun RtcModel.C16Bytes
 
